@@ -138,7 +138,7 @@ func mutateBytesDepth(rng *Rng, src string, maxDepth int) string {
 			b = append(append(append([]byte{}, b[:i]...), []byte(strings.Repeat(open, depth))...), b[i:]...)
 		case 5:
 			huge := []string{"1" + strings.Repeat("0", 400), "0." + strings.Repeat("0", 400) + "1", "1e999999", "0x" + strings.Repeat("f", 300), strings.Repeat("9", 30) + "n",
-				"\\u{" + strings.Repeat("0", 50) + "41}", "\\u{110000}", "\\u{FFFFFFFFF}", "\\xZZ", "\\u12", "\"\\" , "1_", "1__0", "0b102", "09.5", "1e", ".e1"}[rng.Intn(17)]
+				"\\u{" + strings.Repeat("0", 50) + "41}", "\\u{110000}", "\\u{FFFFFFFFF}", "\\xZZ", "\\u12", "\"\\", "1_", "1__0", "0b102", "09.5", "1e", ".e1"}[rng.Intn(17)]
 			i := rng.Intn(len(b) + 1)
 			b = append(append(append([]byte{}, b[:i]...), []byte(huge)...), b[i:]...)
 		case 6:
